@@ -46,7 +46,8 @@ def protocols():
 
 
 WORDS = ['foo', 'bar', 'org.example.App', 'Terminal', 'a b', 'x', 'hello world', 'wl_seat', 'seat0', 'launcher', 'My  App',
-         'com.vendor.thing', 'name', 'top', 'é', 'naïve café', '日本', 'tab\there', 'it\'s', 'a.b.', '.', 'UPPER lower 123']
+         'com.vendor.thing', 'name', 'top', 'é', 'naïve café', '日本', 'tab\there', 'it\'s', 'a.b.', '.', 'UPPER lower 123',
+         'b', 'A', 'c', 'all']      # titles / app ids spelled like connection names (`connection b`: names are looked up before app ids)
 SYN_IFACES = ['my_widget', 'acme_thing_v2', 'test_iface']
 SYN_MSGS = ['poke', 'frob', 'set_title', 'set_app_id', 'destroy', 'configure', 'done']
 
@@ -248,7 +249,7 @@ def gen_args(rnd, c, spec, is_event, proto):
     return args, created
 
 
-def gen_history(rnd, n_conns=None, n_events=40, known_bias=0.8, chatter=0.1, dialect=None, tags=None):
+def gen_history(rnd, n_conns=None, n_events=40, known_bias=0.8, chatter=0.1, dialect=None, tags=None, esc_chatter=False):
     """returns (dialect, list of items): item = ('msg', tag, mdict) | ('text', s)"""
     proto = protocols()
     d = dialect or rnd.choice(DIALECTS)
@@ -277,6 +278,11 @@ def gen_history(rnd, n_conns=None, n_events=40, known_bias=0.8, chatter=0.1, dia
                 if '(' in cut and not cut.endswith(')'):
                     items.append(('text', cut))
                     continue
+            if esc_chatter and rnd.random() < 0.25:
+                # programs that colourise their own stderr: the escape sequences are part of the line and pass through untouched
+                items.append(('text', rnd.choice(['warn: \x1b[31mred\x1b[0m text', '\x1b[0m', '\x1b[1;37mbold line\x1b[0m', '  \x1b[2;37m[trace]\x1b[0m x=1',
+                                                   '\x1b[93mwl_a@1.b()\x1b[0m', 'tail \x1b[0m'])))
+                continue
             items.append(('text', rnd.choice(['', 'hello from the program', '  indented chatter  ', 'error: something [1.0] happened',
                                                'libEGL warning: foo', '[destroyed object]: wl_callback@3 done', '\t', 'xyz(1, 2)',
                                                '[1234.567] discarded wl_pointer@3.motion(1)', '[ 12.5] wl_foo@3', 'wl_a@1.b()',
